@@ -107,7 +107,15 @@ func stringToDFA(value string) *auto.DFA {
 	d := auto.NewDFA(start, nil)
 
 	curr, next := start, start+1
+	escaped := false
 	for _, r := range value {
+		// A backslash escapes the next character: the string denotes the character itself.
+		if r == '\\' && !escaped {
+			escaped = true
+			continue
+		}
+
+		escaped = false
 		d.Add(curr, auto.Symbol(r), next)
 		curr, next = next, next+1
 	}
